@@ -46,10 +46,10 @@ func init() {
 				"distinct = decision-sequence hash; non-trivial = at least one pre-emption"
 			d.RequiredProbes = []string{"fan.kind.tcp", "fan.kind.udp", "fan.kind.ws", "fan.kind.wsp", "fan.kind.flv", "fan.kind.wsflv", "fan.kind.mcast", "fan.real-pusher", "fan.left-early", "fan.complete-run-checked"}
 		} else {
-			d.Rule = "same scenario; the stream ends by {publisher disconnect, publisher TEARDOWN, replacement by a new publisher, DELETE /api/v1/streams, Unregist, server shutdown} while consumers are attached, attaching or leaving; " +
+			d.Rule = "same scenario, plus RTSP/TCP and HTTP-FLV clients that stop reading for good (2 KiB window: the server's delivery goroutine blocks in a write); the stream ends by {publisher disconnect, publisher TEARDOWN, replacement by a new publisher, DELETE /api/v1/streams, Unregist, server shutdown} while consumers are attached, attaching or leaving; " +
 				"every attached client sees its connection closed by the server within 5 simulated seconds, the ended stream's consumer count is 0 (never negative at any sample), rtsp/flv/wsp active counters return to their start values, no UDP socket stays open, no session/delivery/conversion goroutine survives. " +
 				"distinct = decision-sequence hash; non-trivial = at least one pre-emption"
-			d.RequiredProbes = []string{"fan.end.disconnect", "fan.end.teardown", "fan.end.replace", "fan.end.delete", "fan.end.shutdown", "fan.end.unregist", "fan.attach-near-end", "fan.eof-checked"}
+			d.RequiredProbes = []string{"fan.end.disconnect", "fan.end.teardown", "fan.end.replace", "fan.end.delete", "fan.end.shutdown", "fan.end.unregist", "fan.attach-near-end", "fan.eof-checked", "fan.stalled-client-at-end"}
 		}
 		Register(d)
 	}
@@ -68,6 +68,8 @@ type fanConsumer struct {
 	joinDelay  time.Duration
 	leaveAfter time.Duration // 0: stays until the server closes
 	audio      bool
+	stallAfter time.Duration // >0 (tcp, flv): the client stops reading this long after its PLAY/GET answer and never resumes
+	stalled    bool
 
 	cl       *rtspClient
 	ip       string         // udp: the client's address; mcast: the group address
@@ -125,6 +127,8 @@ func buildSvcFan(tier string, prop string) sim.Scenario {
 			}
 			if tp.OneIn(4) {
 				c.leaveAfter = time.Duration(1+tp.Choose(int(span/time.Millisecond)+1)) * time.Millisecond
+			} else if (c.kind == "tcp" || c.kind == "flv") && tp.OneIn(3) {
+				c.stallAfter = time.Duration(1+tp.Choose(int(span/time.Millisecond)/2+1)) * time.Millisecond
 			}
 			cons = append(cons, c)
 			w.Probe("fan.kind." + c.kind)
@@ -320,6 +324,17 @@ func buildSvcFan(tier string, prop string) sim.Scenario {
 				if c.left {
 					continue
 				}
+				if c.stalled {
+					w.Probe("fan.stalled-client-at-end")
+				}
+				if !c.eof && c.stalled {
+					// recorded finding, reported only if every other rule held in this run
+					if deferredClass == "" || deferredClass == "C03/replaced-not-closed" {
+						deferredClass = "C03/stalled-not-closed"
+						deferredMsg = fmt.Sprintf("%s client %s had stopped reading (its delivery goroutine was blocked in a write) when the stream ended by %s; the server did not close its connection within 10 simulated minutes: only the delivery goroutine itself ever closes a consumer, and it is stuck in the write", c.kind, c.name, endCause)
+					}
+					continue
+				}
 				if !c.eof {
 					w.Fail("C03/not-closed", "%s client %s (PLAY/GET answered %v before the end by %s) never saw its connection closed by the server (%s)", c.kind, c.name, endAt.Sub(c.playedAt), endCause, c.note)
 					return
@@ -347,7 +362,7 @@ func buildSvcFan(tier string, prop string) sim.Scenario {
 			idxByData[string(fp.p.Data)] = i
 		}
 		for _, c := range cons {
-			if !c.played {
+			if !c.played || c.stalled {
 				continue
 			}
 			switch c.kind {
@@ -502,7 +517,7 @@ func buildSvcFan(tier string, prop string) sim.Scenario {
 		}
 		var names []string
 		for _, a := range alive {
-			if !a.Actor {
+			if !a.Actor && !strings.HasPrefix(a.Name, "simsched.") { // a pending scheduler job is a timer in the real engine, not a goroutine
 				names = append(names, a.Name)
 			}
 		}
@@ -530,7 +545,11 @@ func fanConsume(w *sim.World, sw *svcWorld, c *fanConsumer, base string, pubN fu
 		var err error
 		switch c.kind {
 		case "tcp", "udp", "mcast":
-			c.cl = sw.rtspConnect(c.name, 1<<20)
+			win := 1 << 20
+			if c.stallAfter > 0 {
+				win = 2 << 10
+			}
+			c.cl = sw.rtspConnect(c.name, win)
 			c.ip = c.cl.ip
 		case "ws":
 			c.cl, err = sw.wsRTSPConnect(c.name, fanPath)
@@ -609,6 +628,11 @@ func fanConsume(w *sim.World, sw *svcWorld, c *fanConsumer, base string, pubN fu
 			c.dgStart = groupLen(c.ip)
 		}
 		c.played, c.playedAt = true, time.Now()
+		if c.stallAfter > 0 {
+			c.cl.drain(c.stallAfter)
+			fanStall(w, c, c.cl.c)
+			return
+		}
 		err = c.cl.drain(stay)
 		if c.leaveAfter > 0 && isTimeout(err) {
 			c.left, c.leftN = true, pubN()
@@ -627,7 +651,11 @@ func fanConsume(w *sim.World, sw *svcWorld, c *fanConsumer, base string, pubN fu
 		}
 		c.cl.close()
 	case "flv":
-		cc := sw.httpConn(c.name, 1<<20)
+		win := 1 << 20
+		if c.stallAfter > 0 {
+			win = 2 << 10
+		}
+		cc := sw.httpConn(c.name, win)
 		res, br := httpStart(cc, "GET", "/streams"+fanPath+".flv", nil, "")
 		if res.Err != nil || res.Status != 200 {
 			c.note = fmt.Sprintf("GET answered %d %v", res.Status, res.Err)
@@ -639,6 +667,13 @@ func fanConsume(w *sim.World, sw *svcWorld, c *fanConsumer, base string, pubN fu
 		w.Sleep(time.Millisecond)
 		c.after = pubN()
 		c.played, c.playedAt = true, time.Now()
+		if c.stallAfter > 0 {
+			cc.SetReadDeadline(time.Now().Add(c.stallAfter))
+			io.Copy(&c.flv, br)
+			c.flv.Reset() // what a stalled client read is not judged
+			fanStall(w, c, cc)
+			return
+		}
 		cc.SetReadDeadline(time.Now().Add(stay))
 		_, err := io.Copy(&c.flv, br)
 		if c.leaveAfter > 0 && isTimeout(err) {
@@ -675,6 +710,21 @@ func fanConsume(w *sim.World, sw *svcWorld, c *fanConsumer, base string, pubN fu
 		}
 		ws.Close()
 	}
+}
+
+// fanStall: the client stops reading for good; it only watches for the server closing the connection.
+func fanStall(w *sim.World, c *fanConsumer, cc *sim.Conn) {
+	cc.StallReads(true)
+	c.stalled = true
+	w.Fault("client-stops-reading")
+	for i := 0; i < 6000; i++ {
+		if cc.PeerClosed() {
+			c.eof, c.eofAt = true, time.Now()
+			break
+		}
+		w.Sleep(100 * time.Millisecond)
+	}
+	cc.Close()
 }
 
 // fanCheckFLV: what an FLV client read is valid FLV whose media payloads are published units, in order, at most once.
